@@ -1,5 +1,6 @@
 import CEProofs.C10Knn
 import CEProofs.C10Gauss
+import CEProofs.C10Kde
 #print axioms CE.Knn.row_perm_mi
 #print axioms CE.Knn.row_perm_cmi
 #print axioms CE.Knn.row_perm_mi_idx
@@ -10,3 +11,16 @@ import CEProofs.C10Gauss
 #print axioms CE.Gauss.row_perm
 #print axioms CE.Gauss.swap_xy
 #print axioms CE.Gauss.z_col_perm
+#print axioms CE.Kde.entropy_row_perm
+#print axioms CE.Kde.mi_row_perm
+#print axioms CE.Kde.mi_row_perm_idx
+#print axioms CE.Kde.cmi_row_perm
+#print axioms CE.Kde.cmi_row_perm_idx
+#print axioms CE.Kde.sqdist_swap
+#print axioms CE.Kde.mi_swap_xy
+#print axioms CE.Kde.cmi_swap_xy
+#print axioms CE.Kde.sqdist_colperm
+#print axioms CE.Kde.cmi_z_col_perm
+#print axioms CE.Kde.entropy_formula
+#print axioms CE.Kde.mi_def
+#print axioms CE.Kde.cmi_def
